@@ -199,6 +199,27 @@ pub(crate) fn coalesce_registers(
     interference_graph: &mut InterferenceGraph,
     reg_to_node_map: &mut HashMap<VirtualRegister, NodeIndex>,
 ) -> (Vec<Op>, Vec<BTreeSet<VirtualRegister>>) {
+    // Like every ALU instruction, a MOVE resets `$of` and `$err`. If one of them is read later on
+    // without having been written again, removing the MOVE changes what that read sees, so such
+    // a MOVE is preserved. `live_out` does not track constant registers, hence the second analysis.
+    let flags = [
+        VirtualRegister::Constant(ConstantRegister::Overflow),
+        VirtualRegister::Constant(ConstantRegister::Error),
+    ];
+    let flags_are_read = ops
+        .iter()
+        .any(|op| op.use_registers().iter().any(|reg| flags.contains(reg)));
+    let live_out_with_constants = if flags_are_read {
+        liveness_analysis(ops, false)
+    } else {
+        vec![]
+    };
+    let resets_live_flag = |op_idx: usize| {
+        live_out_with_constants
+            .get(op_idx)
+            .is_some_and(|live| flags.iter().any(|flag| live.contains(flag)))
+    };
+
     // A map from the virtual registers that are removed to the virtual registers that they are
     // replaced with during the coalescing process.
     let mut reg_to_reg_map = IndexMap::<&VirtualRegister, &VirtualRegister>::new();
@@ -212,7 +233,9 @@ pub(crate) fn coalesce_registers(
         match &op.opcode {
             Either::Left(VirtualOp::MOVE(x, y)) => {
                 match (x, y) {
-                    (VirtualRegister::Virtual(_), VirtualRegister::Virtual(_)) => {
+                    (VirtualRegister::Virtual(_), VirtualRegister::Virtual(_))
+                        if !resets_live_flag(op_idx) =>
+                    {
                         // Use reg_to_reg_map to figure out what x and y have been replaced
                         // with. We keep looking for mappings within reg_to_reg_map until we find a
                         // register that doesn't map to any other.
